@@ -42,6 +42,8 @@ def actions_for(n, actor):
             acts.append({'kind': 'remove', 'target': j})
             acts.append({'kind': 'readd', 'target': j})
             acts.append({'kind': 'replace', 'target': j})
+            acts.append({'kind': 'reprio', 'target': j, 'prio': 2})
+            acts.append({'kind': 'reprio', 'target': j, 'prio': -2})
     for p in (2, 1, 0, -1, -2):
         acts.append({'kind': 'add', 'prio': p})
     return acts
@@ -55,6 +57,22 @@ def scenarios(tier):
             for actor in range(n):
                 for act in actions_for(n, actor):
                     yield {'leg': 'one_action', 'prios': v, 't': t, 'acts': [dict(act, actor=actor)]}
+    # the same scenarios driven by ONE execute(3) call, and once more with an independent model stepped from inside
+    # the acting system's turn
+    for v in vectors(maxlen):
+        n = len(v)
+        for t in (0, 1):
+            for actor in range(n):
+                for act in actions_for(n, actor):
+                    yield {'leg': 'multi_drive', 'prios': v, 't': t, 'acts': [dict(act, actor=actor)], 'drive': 'multi'}
+                    yield {'leg': 'sandbox', 'prios': v, 't': t, 'acts': [dict(act, actor=actor)], 'sandbox': True}
+                # two actions by the same actor in one turn (e.g. remove one system and register another)
+                for a1, a2 in (({'kind': 'remove', 'target': (actor + 1) % n}, {'kind': 'add', 'prio': 0}),
+                               ({'kind': 'add', 'prio': 1}, {'kind': 'remove', 'target': (actor + 1) % n})):
+                    if n > 1:
+                        for drive in ('single', 'multi'):
+                            yield {'leg': 'swap', 'prios': v, 't': t, 'drive': drive,
+                                   'acts': [dict(a1, actor=actor), dict(a2, actor=actor)]}
     # systems that compare by value: every replace / re-add scenario once more
     for v in vectors(maxlen):
         n = len(v)
@@ -91,6 +109,8 @@ def run_scenario(case):
     prios, t_act, acts = case['prios'], case['t'], case['acts']
     model = Core.Model(seed=1)
     events = []
+    stamps = []       # timestep of every 'run' event (parallel to the run events)
+    starts = {}
     seq = [0]
     reg = {}          # key -> (priority, registration sequence number) for currently registered systems
 
@@ -102,13 +122,30 @@ def run_scenario(case):
             self.todo = []
 
         def execute(self):
+            t_now = model.systems.timestep
+            if t_now not in starts:
+                starts[t_now] = dict(reg)      # registry at the start of this timestep (before any action in it)
             events.append(('run', self.key))
+            stamps.append(t_now)
             if len(events) > 60 + 3 * len(prios):     # make a runaway timestep visible instead of looping forever
                 raise Violation(f'timestep {model.systems.timestep} does not terminate: more than 60 events',
                                 expected='each system at most once', observed=events[:12] + ['...'])
             if model.systems.timestep == t_act:
+                if case.get('sandbox') and self.todo:
+                    run_sandbox()
                 for act in self.todo:
                     perform(self, act)
+
+    def run_sandbox():
+        # an independent little model is built and stepped from inside this system's turn
+        sb = Core.Model(seed=5)
+
+        class Q(Core.System):
+            def execute(self):
+                pass
+        for i in range(3):
+            sb.systems.add_system(Q(f'q{i}', sb, priority=i % 2))
+        sb.execute(2)
 
     if case.get('eq_by_value'):
         # system classes that compare by value (dataclass style): a replacement object equals the one it replaces
@@ -157,6 +194,15 @@ def run_scenario(case):
                 o = objs[key] = S(key, sid, old.priority)
                 register(o)
                 events.append(('added', key))
+        elif kind == 'reprio':
+            # the usual re-prioritise idiom: change the attribute, remove, register again (same object)
+            sid = f's{act["target"]}'
+            if sid in byid:
+                key = byid[sid]
+                objs[key].priority = act['prio']
+                unregister(sid)
+                register(objs[key])
+                events.append(('added', key))
         elif kind == 'add':
             key = f'n{len([k for k in objs if k.startswith("n")])}'
             o = objs[key] = S(key, key, act['prio'])
@@ -171,13 +217,30 @@ def run_scenario(case):
         objs[f's{act["actor"]}'].todo.append(act)
 
     trace = []
-    for t in range(4 if len(prios) > 8 else 3):
-        start_reg = dict(reg)
-        del events[:]
-        model.execute()
-        ev = list(events)
-        trace.append(ev)
-        judge(t, start_reg, ev, dict(reg))
+    nsteps = 4 if len(prios) > 8 else 3
+    if case.get('drive') == 'multi':
+        # one call advances all timesteps; the event stream is cut into timesteps afterwards
+        first_reg = dict(reg)
+        model.execute(nsteps)
+        cuts, run_i = [[] for _ in range(nsteps)], 0
+        cur = 0
+        for e in events:
+            if e[0] == 'run':
+                cur = stamps[run_i]
+                run_i += 1
+            if cur < nsteps:
+                cuts[cur].append(e)
+        for t in range(nsteps):
+            trace.append(cuts[t])
+            judge(t, starts.get(t, first_reg if t == 0 else dict(reg)), cuts[t], None)
+    else:
+        for t in range(nsteps):
+            start_reg = dict(reg)
+            del events[:]
+            model.execute()
+            ev = list(events)
+            trace.append(ev)
+            judge(t, start_reg, ev, dict(reg))
     if model.timestep != (4 if len(prios) > 8 else 3):
         raise Violation('clock differs from the number of steps', observed=model.timestep)
     return tuple(tuple(e) for ev in trace for e in ev)
